@@ -215,6 +215,16 @@ def templates(rng):
     def up1(): s.x @= s.y | s.a
     @update
     def up2(): s.y @= s.x"""
+    if rng.random() < 0.6:
+      # ... and the cycle runs through a CONNECTION (a generated net-propagation block is part of the cyclic group)
+      conn = "s.y //= s.z" if w < 2 or rng.random() < 0.4 else f"s.y[0:{w - 1}] //= s.z[0:{w - 1}]; s.y[{w - 1}:{w}] //= s.z[{w - 1}:{w}]"
+      body = f"""    s.a = InPort({w}); s.x = Wire({w}); s.y = Wire({w}); s.z = Wire({w})
+    @update_once
+    def up1(): s.x @= s.y | s.a
+    @update
+    def up2(): s.z @= s.x
+    {conn}"""
+      return "update-once-in-cycle-through-connection", H, body, "reject"
     return "update-once-in-cycle", H, body, "reject"
   if t == 9:   # update_once that calls a @blocking method (wrapped into a greenlet before scheduling) inside the cycle -> rejected
     k = rng.randrange(2, 5)          # ring of k+1 blocks: with k >= 2 some edge of the cycle lies between two unwrapped blocks
